@@ -704,6 +704,13 @@ fn consume_expr<'i>(
     pratt.map_primary(term).map_infix(infix).parse(pairs)
 }
 
+/// Verification hook (compiled only with `--cfg pest_parser_pest_verif`): the literal unescaping kernel.
+#[cfg(pest_parser_pest_verif)]
+#[doc(hidden)]
+pub fn verif_unescape(string: &str) -> Option<String> {
+    unescape(string)
+}
+
 fn unescape(string: &str) -> Option<String> {
     let mut result = String::new();
     let mut chars = string.chars();
